@@ -161,6 +161,10 @@ def tfunLayout (cfg : Cfg) (es : InEdges) (comps : List (List (Int × G))) (real
     match layoutModelP (fun g => (orderWMedianP 24 g).map (·.1)) cfg es with
     | .error e => out := out ++ [("T:pipeline", false, s!"model error {e}")]
     | .ok m => out := out ++ [("T:pipeline", m == real, firstDiffOut m real)]
+    -- … and with sizes and spacings withheld from phases 0–3
+    match layoutModelS (fun g => (orderWMedianP 24 g).map (·.1)) cfg es with
+    | .error e => out := out ++ [("T:pipeline-sizes", false, s!"model error {e}")]
+    | .ok m => out := out ++ [("T:pipeline-sizes", m == real, firstDiffOut m real)]
   -- result collection
   let finals := comps.filterMap fun c => stageOf c 6
   if finals.length == comps.length then
